@@ -76,10 +76,12 @@ type execResult struct {
 	NonTrivial bool   // by the property's stated rule
 	Dist       string // bucket for the distribution summary
 	Summary    interface{}
+	Family     string // which case format (header) the literal belongs to; "" = the property's default
 }
 
 type propDef struct {
 	header    string // Coq imports of the cases file
+	headers   map[string]string // further case families (execResult.Family -> imports)
 	rule      string
 	shardSize int
 	gen       func(tier string, r *Rand, add func(in interface{}))
@@ -103,13 +105,14 @@ type metaOut struct {
 	Distribution       map[string]int         `json:"distribution"`
 	Shards             []string               `json:"shards"`
 	ShardSize          int                    `json:"shard_size"`
+	ShardIndex         map[string][]int       `json:"shard_index"`
 	Extra              map[string]interface{} `json:"extra,omitempty"`
 	ExtraViolations    []string               `json:"extra_violations,omitempty"`
 	ExecErrors         []string               `json:"exec_errors,omitempty"`
 }
 
-func writeShard(outdir, prop string, k int, header string, lits []string) (string, error) {
-	name := fmt.Sprintf("cases_%s_%03d.v", prop, k)
+func writeShard(outdir, prop, fam string, k int, header string, lits []string) (string, error) {
+	name := fmt.Sprintf("cases_%s_%s%03d.v", prop, fam, k)
 	var sb strings.Builder
 	sb.WriteString("(* written by vh: cases and the observables of the real code; evaluated by the model in Coq *)\n")
 	sb.WriteString("From Coq Require Import List NArith ZArith Bool String.\nImport ListNotations.\n")
@@ -167,21 +170,30 @@ func runCases(args []string) {
 	}
 	distinct := map[string]bool{}
 	distinctNT := map[string]bool{}
-	var lits []string
+	lits := map[string][]string{}
+	idxs := map[string][]int{}
+	nshard := map[string]int{}
+	meta.ShardIndex = map[string][]int{}
 	inF, err := os.Create(filepath.Join(outdir, "inputs.jsonl"))
 	if err != nil {
 		panic(err)
 	}
-	flush := func() {
-		if len(lits) == 0 {
+	flush := func(fam string) {
+		if len(lits[fam]) == 0 {
 			return
 		}
-		name, err := writeShard(outdir, prop, len(meta.Shards), pd.header, lits)
+		hdr := pd.header
+		if fam != "" {
+			hdr = pd.headers[fam]
+		}
+		name, err := writeShard(outdir, prop, fam, nshard[fam], hdr, lits[fam])
 		if err != nil {
 			panic(err)
 		}
+		nshard[fam]++
 		meta.Shards = append(meta.Shards, name)
-		lits = nil
+		meta.ShardIndex[name] = idxs[fam]
+		lits[fam], idxs[fam] = nil, nil
 	}
 	for _, raw := range inputs {
 		res, err := pd.exec(raw)
@@ -191,6 +203,7 @@ func runCases(args []string) {
 		}
 		inF.Write(raw)
 		inF.Write([]byte("\n"))
+		gi := meta.Evaluations
 		meta.Evaluations++
 		h := sha256.Sum256(raw)
 		key := hex.EncodeToString(h[:8])
@@ -204,12 +217,16 @@ func runCases(args []string) {
 			json.Unmarshal(raw, &in)
 			meta.Samples = append(meta.Samples, map[string]interface{}{"input": in, "observed": res.Summary})
 		}
-		lits = append(lits, res.Coq)
-		if len(lits) >= meta.ShardSize {
-			flush()
+		lits[res.Family] = append(lits[res.Family], res.Coq)
+		idxs[res.Family] = append(idxs[res.Family], gi)
+		if len(lits[res.Family]) >= meta.ShardSize {
+			flush(res.Family)
 		}
 	}
-	flush()
+	for fam := range lits {
+		flush(fam)
+	}
+	sort.Strings(meta.Shards)
 	inF.Close()
 	meta.Distinct = len(distinct)
 	meta.DistinctNontrivial = len(distinctNT)
